@@ -81,6 +81,7 @@ fn main() {
         "LS" => ls::replay(&cases, &mut rep),
         "CS" => cs::replay(&cases, &mut rep),
         "JPT" => jpt::replay(&cases, &mut rep),
+        "TFR" => jpt::replay_tfr(&cases, &mut rep),
         p => tool_error(&format!("no replay driver for {p}")),
       }
       rep.write(&args[4]);
